@@ -78,6 +78,9 @@ def get_default_qinfo(
 def odimo_mps_latency_reduction(costs):
     """Function that computes the aggregated latency of a multi-precision convolution assuming that the
     convolutions at each precision are run in parallel on different accelerators"""
+    # a layer reports one cost per (activation, weight) precision pair, i.e. a 2-D tensor, and
+    # layers without weights (e.g. MPSIdentity) a 0-D one: reduce over all the entries
+    costs = costs.reshape(-1)
     s_c = F.softmax(costs, dim=0)
     return torch.dot(s_c, costs)
 
